@@ -441,6 +441,7 @@ def check_once(prop, tier, seed, pin):
             "holds_failures_on_implementation": len(fails),
             "predicate_evaluated_on": sum(1 for r in recs if r["verdict"] == "ok"),
             "outside_the_property_quantifier": sum(1 for r in recs if r["verdict"].startswith("skip:")),
+            "outside_the_quantifier_by_reason": {k: sum(1 for r in recs if r["verdict"] == k) for k in sorted({r["verdict"] for r in recs if r["verdict"].startswith("skip:")})},
             "known_findings_reproduced": sorted(known_hit.keys()),
             "extended_search_requests": searched,
             "corpus_requests": len(corpus_requests(prop)),
